@@ -83,6 +83,13 @@ func run(r *hx.Run) error {
 			r.Emit(op, res)
 		}
 	}
+	// schedules forced through the yield points (verifC10) and compared label by label with the LTS
+	for i, op := range []string{"forced kind=dbl q=0 keys=0", "forced kind=mid q=0 keys=2", "forced kind=sig q=0 keys=3", "forced kind=sig q=0 keys=5",
+		"forced kind=full q=2 keys=6", "forced kind=full q=1 keys=4", "forced kind=dbl q=0 keys=3", "forced kind=mid q=4 keys=1"} {
+		r.Case(fmt.Sprintf("forced%d", i))
+		res, _ := h.replayOp(strings.Fields(op))
+		r.Emit(op, res)
+	}
 	n := 60
 	if r.Thorough {
 		n = 400
@@ -174,6 +181,16 @@ func (h *H) replayOp(f []string) (string, bool) {
 		}
 		res := cyclesCase(uint64(m["seed"]), ops, m["gate"], m["keys"], m["q"])
 		count(fmt.Sprintf("cycles:gate%d:%s", m["gate"], ops))
+		return res, true
+	case "forced":
+		kind := ""
+		for _, x := range f[1:] {
+			if strings.HasPrefix(x, "kind=") {
+				kind = x[5:]
+			}
+		}
+		res := forcedCase(kind, m["q"], m["keys"])
+		count("forced:" + kind + ":" + strings.Fields(res)[0])
 		return res, true
 	case "dblclose":
 		res := dblCloseCase(uint64(m["seed"]), m["n"])
@@ -676,6 +693,265 @@ func cyclesCase(seed uint64, ops string, gate, keys, q int) string {
 	}
 	libAlive(baseP, baseI, 500*time.Millisecond)
 	return strings.Join(obs, " ")
+}
+
+// ---------- forced schedules through the yield points ----------
+
+// ctl records the order in which goroutines pass the yield points of one Vaxis and can hold a
+// goroutine at a point.
+type ctl struct {
+	mu      sync.Mutex
+	trace   []string
+	hold    map[string]chan struct{} // "role:point" -> released by closing
+	reached map[string]chan struct{}
+	roles   map[string]string // goroutine id -> role
+}
+
+var ctls sync.Map // *vaxis.Vaxis -> *ctl
+
+func init() {
+	vaxis.VerifC10Yield = func(vx *vaxis.Vaxis, point string) {
+		if c, ok := ctls.Load(vx); ok {
+			c.(*ctl).at(point)
+		}
+	}
+}
+
+func goid() (string, string) {
+	buf := make([]byte, 4096)
+	n := runtime.Stack(buf, false)
+	st := string(buf[:n])
+	f := strings.Fields(st)
+	if len(f) > 1 {
+		return f[1], st
+	}
+	return "?", st
+}
+
+func newCtl() *ctl {
+	return &ctl{hold: map[string]chan struct{}{}, reached: map[string]chan struct{}{}, roles: map[string]string{}}
+}
+
+// as registers the calling goroutine under a role name.
+func (c *ctl) as(role string) {
+	id, _ := goid()
+	c.mu.Lock()
+	c.roles[id] = role
+	c.mu.Unlock()
+}
+
+func (c *ctl) env(what string) {
+	c.mu.Lock()
+	c.trace = append(c.trace, "E:"+what)
+	c.mu.Unlock()
+}
+
+// holdAt arranges for the goroutine of that role to stop at the point; returns (reached, release).
+func (c *ctl) holdAt(key string) (chan struct{}, func()) {
+	c.mu.Lock()
+	h, r := make(chan struct{}), make(chan struct{})
+	c.hold[key], c.reached[key] = h, r
+	c.mu.Unlock()
+	return r, func() { close(h) }
+}
+
+func (c *ctl) at(point string) {
+	id, st := goid()
+	c.mu.Lock()
+	role, ok := c.roles[id]
+	if !ok {
+		role = "X"
+		if strings.Contains(st, "openTty.func1") {
+			role = "I"
+		}
+		c.roles[id] = role
+	}
+	key := role + ":" + point
+	c.trace = append(c.trace, key)
+	h := c.hold[key]
+	var r chan struct{}
+	if h != nil {
+		delete(c.hold, key)
+		r = c.reached[key]
+	}
+	c.mu.Unlock()
+	if h != nil {
+		close(r)
+		<-h
+	}
+}
+
+func (c *ctl) snapshot() string {
+	c.mu.Lock()
+	defer c.mu.Unlock()
+	var out []string
+	for _, t := range c.trace {
+		if !strings.HasPrefix(t, "X:") { // the application's own posts are not part of the shutdown LTS
+			out = append(out, t)
+		}
+	}
+	return joinOr(out)
+}
+
+// quitAsStruct adapts chQuit (chan bool, closed by Close) to a chan struct{}.
+func quitAsStruct(vx *vaxis.Vaxis) chan struct{} {
+	out := make(chan struct{})
+	go func() {
+		select {
+		case <-vx.VerifC03QuitChan():
+			close(out)
+		case <-time.After(2 * bound):
+		}
+	}()
+	return out
+}
+
+func waitCh(ch chan struct{}, d time.Duration) bool {
+	select {
+	case <-ch:
+		return true
+	case <-time.After(d):
+		return false
+	}
+}
+
+// forcedCase drives one schedule of the shutdown LTS on the real code through the yield points:
+//
+//	dbl   a second Close arrives while the first is between its test-and-set and its quit event (F33's window)
+//	mid   Close arrives while the input goroutine has taken a sequence and not yet posted its event
+//	sig   the kill signal arrives while the input goroutine is busy and two or more sequences are pending (F13's window)
+//	full  Close with a full queue, nobody receiving, and input pending (F53)
+//
+// Result: out=<ok|hang> and the trace of yield points in the order they were passed.
+func forcedCase(kind string, q, keys int) string {
+	dump := stackDump()
+	baseP, baseI := countIn(dump, "ansi.(*Parser).run", ""), countIn(dump, "(*Vaxis).openTty.func1", "")
+	t := &tty{Console: fakeconsole.New(80, 24, fakeconsole.FromMask(0))}
+	vx, err := vaxis.New(vaxis.Options{WithConsole: t, NoSignals: true, EventQueueSize: q})
+	if err != nil {
+		return "error-new"
+	}
+	stop := make(chan struct{})
+	cdone := make(chan struct{})
+	consume := func() {
+		go func() {
+			defer close(cdone)
+			for {
+				select {
+				case <-vx.Events():
+				case <-stop:
+					return
+				}
+			}
+		}()
+	}
+	if kind != "full" {
+		consume()
+	}
+	// let start-up traffic settle before the yield points are recorded
+	for i := 0; i < 50 && (t.Pending() > 0 || (kind != "full" && len(vx.Events()) > 0)); i++ {
+		time.Sleep(200 * time.Microsecond)
+	}
+	time.Sleep(2 * time.Millisecond)
+	if kind == "full" {
+		for len(vx.Events()) < cap(vx.Events()) {
+			vx.PostEvent(tagged{0, 0, 'n'})
+		}
+	}
+	c := newCtl()
+	ctls.Store(vx, c)
+	defer ctls.Delete(vx)
+	closer := func(role string, done chan struct{}) {
+		go func() {
+			defer close(done)
+			c.as(role)
+			defer func() { recover() }()
+			vx.Close()
+		}()
+	}
+	inject := func(n int) {
+		for i := 0; i < n; i++ {
+			c.env("input")
+		}
+		t.InjectString(strings.Repeat("k", n))
+	}
+	settle := func() {
+		time.Sleep(3 * time.Millisecond)
+		c.env("settle")
+	}
+	out := "ok"
+	aDone, bDone := make(chan struct{}), make(chan struct{})
+	switch kind {
+	case "dbl":
+		inject(keys)
+		settle()
+		reached, release := c.holdAt("A:close.won")
+		closer("A", aDone)
+		if !waitCh(reached, bound) {
+			out = "hang"
+			break
+		}
+		closer("B", bDone)
+		if !waitCh(bDone, hangBound) {
+			out = "hang"
+		}
+		release()
+		if !waitCh(aDone, bound) {
+			out = "hang"
+		}
+	case "mid":
+		reached, release := c.holdAt("I:input.seq")
+		inject(keys)
+		if !waitCh(reached, bound) {
+			out = "hang"
+			break
+		}
+		settle()
+		closer("A", aDone)
+		time.Sleep(3 * time.Millisecond)
+		release()
+		if !waitCh(aDone, bound) {
+			out = "hang"
+		}
+	case "sig":
+		reached, release := c.holdAt("I:input.handled")
+		inject(1)
+		if !waitCh(reached, bound) {
+			out = "hang"
+			break
+		}
+		inject(keys)
+		settle()
+		c.env("signal")
+		vx.VerifC10SignalKill()
+		release()
+		if !waitCh(quitAsStruct(vx), hangBound) {
+			out = "hang"
+		}
+	case "full":
+		inject(keys)
+		settle()
+		closer("A", aDone)
+		if !waitCh(aDone, hangBound) {
+			out = "hang"
+		}
+	default:
+		out = "unknown-kind"
+	}
+	if out == "ok" && libAlive(baseP, baseI, 300*time.Millisecond) {
+		out = "leak"
+	}
+	tr := c.snapshot()
+	ctls.Delete(vx)
+	// release whatever is stuck: start consuming, wake the readers
+	if kind == "full" {
+		consume()
+	}
+	t.Console.Close()
+	close(stop)
+	waitCh(cdone, bound)
+	libAlive(baseP, baseI, 500*time.Millisecond)
+	return "out=" + out + " trace=" + tr
 }
 
 // ---------- F53: Close with a full queue and pending input ----------
